@@ -1299,7 +1299,13 @@ impl FatVolume {
             .map_err(Error::DeviceError)?;
 
         let start = usize::try_from(entry.entry_offset).map_err(|_| Error::ConversionError)?;
-        block[start..start + 32].copy_from_slice(&entry.serialize(fat_type)[..]);
+        let mut bytes = entry.serialize(fat_type);
+        // An update never changes what was recorded when the entry was created,
+        // nor fields this crate does not model: keep the name-case flags, the
+        // creation time (including its 10 ms part) and the last-access date
+        // exactly as they are on disk.
+        bytes[12..20].copy_from_slice(&block[start + 12..start + 20]);
+        block[start..start + 32].copy_from_slice(&bytes[..]);
 
         trace!("Updating directory");
         block_cache.write_back().map_err(Error::DeviceError)?;
